@@ -61,11 +61,17 @@ package ctlog
 //@ pure func tarOf(uploads Slice) bytes
 
 //@ func ctlog.(*Log).cachePut props C02 C07
+//@   requires l != nil && (forall k int :: (0 <= k && k < len(entries)) ==> entries[k] != nil)
+//@   init gExecs == 0 && !gExecFailed
+//@   invariant "range entries" [C07] one-row-per-entry-so-far: rangeindex < len(entries) && gExecs == rangeindex + 1
+//@   call sqlitex.Exec requires [C07] row-is-this-entrys-key-timestamp-and-index: gExecs >= 0 && gExecs < len(entries) && se == entries[gExecs] && c_conn == l.cacheWrite && c_query == "INSERT INTO cache256 (key, timestamp, leaf_index) VALUES (?, ?, ?)" && len(c_args) == 3 && c_args[0] == iface(bytes(h)) && c_args[1] == iface(se.Timestamp) && c_args[2] == iface(se.LeafIndex)
+//@   call ctlog.computeCacheHash requires [C07] key-of-this-entry: c_Certificate == se.Certificate && c_IsPrecert == se.IsPrecert && c_IssuerKeyHash == se.IssuerKeyHash
+//@   ensures [C07] every-entry-gets-its-row-unless-an-insert-failed: !gExecFailed ==> gExecs == len(entries)
 //@   modifies gCachePuts
 //@   defines gCachePuts == old(gCachePuts) + 1
 //@ ghost var gCachePuts int
 
-//@ func ctlog.(*Log).sequencePool props C01 C02 C03 C04 C06 C08 C17
+//@ func ctlog.(*Log).sequencePool props C01 C02 C03 C04 C06 C07 C08 C11 C17
 //@   requires l != nil && p != nil && l.c != nil
 //@   requires realizable(l.tree.Tree)
 //@   requires l.tree.N >= 0 && (l.tree.N % 256 == 0 ==> ((!has(l.edgeTiles, -1) || l.edgeTiles[-1].W == 256) && (!has(l.edgeTiles, -2) || l.edgeTiles[-2].W == 256)))
@@ -100,6 +106,7 @@ package ctlog
 //@   call ctlog.(*Log).cachePut requires [C02,C07] after-publish: gUp["checkpoint"] && gUpData["checkpoint"] == checkpoint && c_entries == sequencedLeaves
 //@   call ctlog.(*Log).cachePut requires [C04,C07] cached-indexes-are-positions: len(sequencedLeaves) == len(p.pendingLeaves) && (forall k int :: (0 <= k && k < len(sequencedLeaves)) ==> (sequencedLeaves[k].LeafIndex == old(l.tree.N) + k && sequencedLeaves[k].Timestamp == timestamp))
 //@   returns [C02,C03,C04] ack-only-after-every-staged-tile-was-uploaded: gAppliedOK == 1 ==> (tlen(tarRecs(stagedUploads)) == len(tileUploads) && (forall k int {tname(tarRecs(stagedUploads), k)} :: (0 <= k && k < len(tileUploads)) ==> (tname(tarRecs(stagedUploads), k) == tileUploads[k].key && gUp[tileUploads[k].key])))
+//@   ensures [C07] acknowledged-entries-were-handed-to-the-dedup-cache: p.err == nil ==> gCachePuts == 1
 //@   ensures [C02,C17] waiters-released: closed(p.done)
 //@   ensures [C17] other-pools-err-untouched: forall q *ctlog.pool :: q != p ==> q.err == old(q.err)
 //@   ensures [C17] other-pools-done-untouched: forall q *ctlog.pool :: q.done == old(q.done)
@@ -142,7 +149,7 @@ package ctlog
 //@   ensures [C06] refuse-existing: gCreateOK <= 1 && gReplaceTried == 0
 //@   ensures [C01,C06] publish-implies-create: gUpTried["checkpoint"] ==> gCreateOK == 1
 
-//@ func ctlog.LoadLog props C01 C03 C06 C08
+//@ func ctlog.LoadLog props C01 C03 C04 C06 C08
 //@   requires config != nil
 //@   init gReplaceTried == 0 && gCreateOK == 0 && gAppliedOK == 0 && gDiscarded == emptyset("set[string]")
 //@   call tlog.TileHashReader requires [C08] verify-against-lock-tree: c_tree == c.Tree
@@ -166,13 +173,13 @@ package ctlog
 //@   modifies gAccepting
 //@   defines gAccepting == ret
 
-//@ func ctlog.(*Log).uploadIssuer props C04 C08
+//@ func ctlog.(*Log).uploadIssuer props C01 C04 C08 C09
 //@   requires l != nil && l.c != nil && !held(&l.issuersMu)
 //@   init gUp == emptyset("set[string]") && gFetchTried == emptyset("set[string]")
 //@   modifies gIssuerDone
 //@   call ctlog.Backend.Upload requires [C01,C04] issuer-key: hasPrefix(c_key, "issuer/") && c_key == path && c_data == issuer
-//@   mapupdate issuers requires [C04,C08] known-only-after-store-or-compare: held(&l.issuersMu) && c_key == fingerprint && ((gUp[path] && gUpData[path] == issuer && gUpImm[path]) || (gFetchTried[path] && !gFetchFailed[path] && old__1 == issuer))
-//@   returns [C04,C08] stored-or-compared: ret == nil ==> found || l.issuers[fingerprint] || (gUp[path] && gUpData[path] == issuer && gUpImm[path]) || (gFetchTried[path] && !gFetchFailed[path] && old__1 == issuer)
+//@   mapupdate issuers requires [C04,C08,C09] known-only-after-store-or-compare: held(&l.issuersMu) && c_key == fingerprint && ((gUp[path] && gUpData[path] == issuer && gUpImm[path]) || (gFetchTried[path] && !gFetchFailed[path] && old__1 == issuer))
+//@   returns [C04,C08,C09] stored-or-compared: ret == nil ==> found || l.issuers[fingerprint] || (gUp[path] && gUpData[path] == issuer && gUpImm[path]) || (gFetchTried[path] && !gFetchFailed[path] && old__1 == issuer)
 //@   defines ret == nil ==> gIssuerDone == upd(old(gIssuerDone), issuer, true)
 //@   defines ret != nil ==> gIssuerDone == old(gIssuerDone)
 //@   ensures [C04] unlocks: !held(&l.issuersMu)
@@ -207,7 +214,7 @@ package ctlog
 //@   ensures [C07] unlocks: !held(&l.poolMu)
 //@   ensures [C17] low-priority-slots-in-range: forall k int :: has(l.currentPool.lowPriority, k) ==> (0 <= k && k < len(l.currentPool.pendingLeaves))
 
-//@ func ctlog.(*Log).sequence props C01 C07 C17
+//@ func ctlog.(*Log).sequence props C01 C04 C06 C07 C17
 //@   requires l != nil && l.c != nil && l.currentPool != nil && !held(&l.poolMu) && realizable(l.tree.Tree) && !closed(l.currentPool.done)
 //@   requires l.tree.N >= 0 && (l.tree.N % 256 == 0 ==> ((!has(l.edgeTiles, -1) || l.edgeTiles[-1].W == 256) && (!has(l.edgeTiles, -2) || l.edgeTiles[-2].W == 256)))
 //@   modifies gAccepting
@@ -242,24 +249,24 @@ package ctlog
 
 // ---- local filesystem backend (C13)
 
-//@ func ctlog.compareFile props C03 C13
+//@ func ctlog.compareFile props C03 C04 C08 C13
 //@   requires f != nil && gFilePos[f] == 0 && !gReadError
 //@   invariant "for" progress: 0 <= gFilePos[f] && gFilePos[f] <= len(fileContent(f)) && len(data) <= len(old(data)) && gFilePos[f] == len(old(data)) - len(data) && len(b) >= 0
 //@   invariant "for" prefix-equal: fileContent(f)[0:gFilePos[f]] == old(data)[0:gFilePos[f]] && data == old(data)[gFilePos[f]:len(old(data))]
 //@   invariant "for" buffer-nonempty: len(b) > 0
 //@   decreases "for" len(data)
-//@   ensures [C13] sound: ret == nil ==> fileContent(f) == old(data)
+//@   ensures [C04,C08,C13] sound: ret == nil ==> fileContent(f) == old(data)
 //@   ensures [C03,C13] complete: (fileContent(f) == old(data) && !gReadError) ==> ret == nil
 
-//@ func ctlog.(*LocalBackend).Upload props C13
+//@ func ctlog.(*LocalBackend).Upload props C03 C04 C08 C13
 //@   requires s != nil
 //@   init gOpenFailed == emptyset("set[string]") && !gReadError
 //@   call durable.WriteFile requires [C13] confined: c_name == pjoin(s.dir, localized(key)) && c_data == data
-//@   call durable.WriteFile requires [C13] never-over-existing-immutable: (opts != nil && opts.Immutable) ==> gOpenFailed[path]
+//@   call durable.WriteFile requires [C04,C08,C13] never-over-existing-immutable: (opts != nil && opts.Immutable) ==> gOpenFailed[path]
 //@   call durable.MkdirAll requires [C13] confined-dir: c_path == dirOf(pjoin(s.dir, localized(key)))
 //@   call os.Open requires [C13] confined-open: c_name == pjoin(s.dir, localized(key))
-//@   call ctlog.compareFile requires [C13] compares-existing-with-new: c_data == data && gFilePos[c_f] == 0 && gOpenPath[c_f] == path
-//@   returns? [C13] existing-immutable-accepted-only-if-equal: (ret == nil && opts != nil && opts.Immutable) ==> fileContent(f__1) == data
+//@   call ctlog.compareFile requires [C04,C08,C13] compares-existing-with-new: c_data == data && gFilePos[c_f] == 0 && gOpenPath[c_f] == path
+//@   returns? [C03,C04,C08,C13] existing-immutable-accepted-only-if-equal: (ret == nil && opts != nil && opts.Immutable) ==> fileContent(f__1) == data
 
 //@ func ctlog.(*LocalBackend).Fetch props C13
 //@   requires s != nil
@@ -294,66 +301,66 @@ package ctlog
 
 // ---- lock backends (C05, reduced form: each method issues exactly one atomic primitive with the right shape)
 
-//@ func ctlog.(*SQLiteBackend).Replace props C01 C05
+//@ func ctlog.(*SQLiteBackend).Replace props C01 C05 C06
 //@   requires b != nil && b.mu != nil && !held(b.mu)
 //@   init gExecs == 0
-//@   call sqlitex.Exec requires [C01,C05] compare-and-swap-statement: c_query == "UPDATE checkpoints SET body = ? WHERE logID = ? AND body = ?" && len(c_args) == 3 && c_args[0] == iface(new) && c_args[1] == iface(bytes(o.logID)) && c_args[2] == iface(o.body)
-//@   call sqlitex.Exec requires [C05] in-critical-section: held(b.mu) && gExecs == 0 && c_conn == b.conn
-//@   call sqlite.(*Conn).Changes requires [C05] same-critical-section: held(b.mu) && gExecs == 1 && c_recv == b.conn
-//@   returns [C01,C05] success-only-if-row-changed: ret1 == nil ==> gExecs == 1 && gLastChanges != 0 && err == nil
-//@   returns [C05] token-carries-new-value: ret1 == nil ==> typeof(ret0) == typeid("*ctlog.sqliteCheckpoint") && cast(ret0, "*ctlog.sqliteCheckpoint").body == new && cast(ret0, "*ctlog.sqliteCheckpoint").logID == o.logID
-//@   ensures [C05] unlocked: !held(b.mu) && gExecs <= 1
+//@   call sqlitex.Exec requires [C01,C05,C06] compare-and-swap-statement: c_query == "UPDATE checkpoints SET body = ? WHERE logID = ? AND body = ?" && len(c_args) == 3 && c_args[0] == iface(new) && c_args[1] == iface(bytes(o.logID)) && c_args[2] == iface(o.body)
+//@   call sqlitex.Exec requires [C01,C05,C06] in-critical-section: held(b.mu) && gExecs == 0 && c_conn == b.conn
+//@   call sqlite.(*Conn).Changes requires [C01,C05,C06] same-critical-section: held(b.mu) && gExecs == 1 && c_recv == b.conn
+//@   returns [C01,C05,C06] success-only-if-row-changed: ret1 == nil ==> gExecs == 1 && gLastChanges != 0 && err == nil
+//@   returns [C01,C05,C06] token-carries-new-value: ret1 == nil ==> typeof(ret0) == typeid("*ctlog.sqliteCheckpoint") && cast(ret0, "*ctlog.sqliteCheckpoint").body == new && cast(ret0, "*ctlog.sqliteCheckpoint").logID == o.logID
+//@   ensures [C01,C05,C06] unlocked: !held(b.mu) && gExecs <= 1
 
-//@ func ctlog.(*SQLiteBackend).Create props C05
+//@ func ctlog.(*SQLiteBackend).Create props C01 C05 C06
 //@   requires b != nil && b.mu != nil && !held(b.mu)
 //@   init gExecs == 0
-//@   call sqlitex.Exec requires [C05] insert-if-absent-statement: c_query == "INSERT INTO checkpoints (logID, body) VALUES (?, ?)\n\t\tON CONFLICT(logID) DO NOTHING" && len(c_args) == 2 && c_args[0] == iface(bytes(logID)) && c_args[1] == iface(new) && held(b.mu)
-//@   returns [C05] success-only-if-inserted: ret == nil ==> gExecs == 1 && gLastChanges != 0
-//@   ensures [C05] unlocked: !held(b.mu)
+//@   call sqlitex.Exec requires [C01,C05,C06] insert-if-absent-statement: c_query == "INSERT INTO checkpoints (logID, body) VALUES (?, ?)\n\t\tON CONFLICT(logID) DO NOTHING" && len(c_args) == 2 && c_args[0] == iface(bytes(logID)) && c_args[1] == iface(new) && held(b.mu)
+//@   returns [C01,C05,C06] success-only-if-inserted: ret == nil ==> gExecs == 1 && gLastChanges != 0
+//@   ensures [C01,C05,C06] unlocked: !held(b.mu)
 
-//@ func ctlog.(*SQLiteBackend).Fetch props C05
+//@ func ctlog.(*SQLiteBackend).Fetch props C01 C05 C06
 //@   requires b != nil && b.mu != nil && !held(b.mu)
-//@   call sqlitex.Exec requires [C05] select-statement: c_query == "SELECT body FROM checkpoints WHERE logID = ?" && len(c_args) == 1 && c_args[0] == iface(bytes(logID)) && held(b.mu)
-//@   returns [C05] not-found-sentinel: ret1 != nil ==> (ret1 == err || ret1 == ErrLogNotFound)
-//@   returns [C05] found-value: ret1 == nil ==> typeof(ret0) == typeid("*ctlog.sqliteCheckpoint") && cast(ret0, "*ctlog.sqliteCheckpoint").body == body && cast(ret0, "*ctlog.sqliteCheckpoint").logID == logID
+//@   call sqlitex.Exec requires [C01,C05,C06] select-statement: c_query == "SELECT body FROM checkpoints WHERE logID = ?" && len(c_args) == 1 && c_args[0] == iface(bytes(logID)) && held(b.mu)
+//@   returns [C01,C05,C06] not-found-sentinel: ret1 != nil ==> (ret1 == err || ret1 == ErrLogNotFound)
+//@   returns [C01,C05,C06] found-value: ret1 == nil ==> typeof(ret0) == typeid("*ctlog.sqliteCheckpoint") && cast(ret0, "*ctlog.sqliteCheckpoint").body == body && cast(ret0, "*ctlog.sqliteCheckpoint").logID == logID
 
-//@ func ctlog.(*DynamoDBBackend).Replace props C05
+//@ func ctlog.(*DynamoDBBackend).Replace props C01 C05 C06
 //@   requires b != nil
 //@   init gPutItems == 0
-//@   call dynamodb.(*Client).PutItem requires [C05] conditional-on-old-value: *c_params.ConditionExpression == "checkpoint = :old" && has(c_params.ExpressionAttributeValues, ":old") && cast(c_params.ExpressionAttributeValues[":old"], "*github.com/aws/aws-sdk-go-v2/service/dynamodb/types.AttributeValueMemberB").Value == o.body
-//@   call dynamodb.(*Client).PutItem requires [C05] writes-new-value-for-same-log: has(c_params.Item, "checkpoint") && cast(c_params.Item["checkpoint"], "*github.com/aws/aws-sdk-go-v2/service/dynamodb/types.AttributeValueMemberB").Value == new && cast(c_params.Item["logID"], "*github.com/aws/aws-sdk-go-v2/service/dynamodb/types.AttributeValueMemberB").Value == bytes(o.logID) && gPutItems == 0
-//@   returns [C05] success-only-if-put-succeeded: ret1 == nil ==> gPutItems == 1 && gPutItemOK
-//@   returns [C05] token-carries-new-value: ret1 == nil ==> cast(ret0, "*ctlog.dynamoDBCheckpoint").body == new && cast(ret0, "*ctlog.dynamoDBCheckpoint").logID == o.logID
+//@   call dynamodb.(*Client).PutItem requires [C01,C05,C06] conditional-on-old-value: *c_params.ConditionExpression == "checkpoint = :old" && has(c_params.ExpressionAttributeValues, ":old") && cast(c_params.ExpressionAttributeValues[":old"], "*github.com/aws/aws-sdk-go-v2/service/dynamodb/types.AttributeValueMemberB").Value == o.body
+//@   call dynamodb.(*Client).PutItem requires [C01,C05,C06] writes-new-value-for-same-log: has(c_params.Item, "checkpoint") && cast(c_params.Item["checkpoint"], "*github.com/aws/aws-sdk-go-v2/service/dynamodb/types.AttributeValueMemberB").Value == new && cast(c_params.Item["logID"], "*github.com/aws/aws-sdk-go-v2/service/dynamodb/types.AttributeValueMemberB").Value == bytes(o.logID) && gPutItems == 0
+//@   returns [C01,C05,C06] success-only-if-put-succeeded: ret1 == nil ==> gPutItems == 1 && gPutItemOK
+//@   returns [C01,C05,C06] token-carries-new-value: ret1 == nil ==> cast(ret0, "*ctlog.dynamoDBCheckpoint").body == new && cast(ret0, "*ctlog.dynamoDBCheckpoint").logID == o.logID
 
-//@ func ctlog.(*DynamoDBBackend).Create props C05
+//@ func ctlog.(*DynamoDBBackend).Create props C01 C05 C06
 //@   requires b != nil
 //@   init gPutItems == 0
-//@   call dynamodb.(*Client).PutItem requires [C05] only-if-absent: *c_params.ConditionExpression == "attribute_not_exists(logID)" && cast(c_params.Item["checkpoint"], "*github.com/aws/aws-sdk-go-v2/service/dynamodb/types.AttributeValueMemberB").Value == new
-//@   returns [C05] success-only-if-put-succeeded: ret == nil ==> gPutItems == 1 && gPutItemOK
+//@   call dynamodb.(*Client).PutItem requires [C01,C05,C06] only-if-absent: *c_params.ConditionExpression == "attribute_not_exists(logID)" && cast(c_params.Item["checkpoint"], "*github.com/aws/aws-sdk-go-v2/service/dynamodb/types.AttributeValueMemberB").Value == new
+//@   returns [C01,C05,C06] success-only-if-put-succeeded: ret == nil ==> gPutItems == 1 && gPutItemOK
 
-//@ func ctlog.(*DynamoDBBackend).Fetch props C05
+//@ func ctlog.(*DynamoDBBackend).Fetch props C01 C05 C06
 //@   requires b != nil
-//@   call dynamodb.(*Client).GetItem requires [C05] consistent-read: c_params.ConsistentRead != nil && *c_params.ConsistentRead
-//@   returns [C05] not-found-sentinel: (ret1 != nil && err == nil) ==> ret1 == ErrLogNotFound
-//@   returns [C05] found-only-with-item: ret1 == nil ==> resp.Item != nil && err == nil
+//@   call dynamodb.(*Client).GetItem requires [C01,C05,C06] consistent-read: c_params.ConsistentRead != nil && *c_params.ConsistentRead
+//@   returns [C01,C05,C06] not-found-sentinel: (ret1 != nil && err == nil) ==> ret1 == ErrLogNotFound
+//@   returns [C01,C05,C06] found-only-with-item: ret1 == nil ==> resp.Item != nil && err == nil
 
-//@ func ctlog.(*ETagBackend).Replace props C05
+//@ func ctlog.(*ETagBackend).Replace props C01 C05 C06
 //@   requires b != nil
 //@   init gPutObjects == 0
-//@   call s3.(*Client).PutObject requires [C05] same-key-one-conditional-option: *c_params.Key == o.key && len(c_optFns) == 1 && gPutObjects == 0
-//@   returns [C05] success-only-if-put-succeeded: ret1 == nil ==> gPutObjects == 1 && gPutObjectOK
-//@   returns [C05] token-carries-new-etag: ret1 == nil ==> cast(ret0, "*ctlog.eTagCheckpoint").body == new && cast(ret0, "*ctlog.eTagCheckpoint").key == o.key && cast(ret0, "*ctlog.eTagCheckpoint").eTag == *out.ETag
+//@   call s3.(*Client).PutObject requires [C01,C05,C06] same-key-one-conditional-option: *c_params.Key == o.key && len(c_optFns) == 1 && gPutObjects == 0
+//@   returns [C01,C05,C06] success-only-if-put-succeeded: ret1 == nil ==> gPutObjects == 1 && gPutObjectOK
+//@   returns [C01,C05,C06] token-carries-new-etag: ret1 == nil ==> cast(ret0, "*ctlog.eTagCheckpoint").body == new && cast(ret0, "*ctlog.eTagCheckpoint").key == o.key && cast(ret0, "*ctlog.eTagCheckpoint").eTag == *out.ETag
 
-//@ func ctlog.(*ETagBackend).Replace$1 props C05
-//@   call http.AddHeaderValue requires [C05] if-match-on-fetched-etag: c_header == "If-Match" && c_value == o.eTag
+//@ func ctlog.(*ETagBackend).Replace$1 props C01 C05 C06
+//@   call http.AddHeaderValue requires [C01,C05,C06] if-match-on-fetched-etag: c_header == "If-Match" && c_value == o.eTag
 
-//@ func ctlog.(*ETagBackend).Create$1 props C05
-//@   call http.AddHeaderValue requires [C05] if-match-empty: c_header == "If-Match" && c_value == ""
+//@ func ctlog.(*ETagBackend).Create$1 props C01 C05 C06
+//@   call http.AddHeaderValue requires [C01,C05,C06] if-match-empty: c_header == "If-Match" && c_value == ""
 
-//@ func ctlog.(*ETagBackend).Fetch props C05
+//@ func ctlog.(*ETagBackend).Fetch props C01 C05 C06
 //@   requires b != nil
-//@   returns [C05] not-found-sentinel: gNoSuchKey ==> (ret1 != nil && Is(ret1, ErrLogNotFound))
-//@   returns [C05] found-with-etag: ret1 == nil ==> out.ETag != nil && cast(ret0, "*ctlog.eTagCheckpoint").eTag == *out.ETag && cast(ret0, "*ctlog.eTagCheckpoint").body == data
+//@   returns [C01,C05,C06] not-found-sentinel: gNoSuchKey ==> (ret1 != nil && Is(ret1, ErrLogNotFound))
+//@   returns [C01,C05,C06] found-with-etag: ret1 == nil ==> out.ETag != nil && cast(ret0, "*ctlog.eTagCheckpoint").eTag == *out.ETag && cast(ret0, "*ctlog.eTagCheckpoint").body == data
 
 // ---- submission handling (C09)
 
@@ -390,6 +397,22 @@ package ctlog
 //@   returns [C09] ok-iff-no-error: (ret1 == 200) <==> (ret2 == nil)
 //@   returns [C09] invalid-chain-is-client-error-without-leaf: (gValidateCalls == 1 && gValidateFailed) ==> ret1 == 400 && ret2 != nil && gAddLeafCalls == 0
 //@   returns [C09] type-mismatch-is-client-error-without-leaf: (gValidateCalls == 1 && !gValidateFailed && gAddLeafCalls == 0 && ret2 != nil) ==> (ret1 == 400 || ret1 == 500)
+
+// get-roots: the response body is one fresh JSON encoding of exactly the certificates of the current root pool
+//@ ghost var gEncodes int
+//@ pure func rawCertsOf(pool Ref) Slice
+//@ assume func x509util.(*PEMCertPool).RawCertificates
+//@   ensures ret == rawCertsOf(recv)
+//@ assume func json.(*Encoder).Encode params v
+//@   modifies gEncodes
+//@   ensures gEncodes == old(gEncodes) + 1
+//@ func ctlog.(*Log).getRoots props C09
+//@   requires l != nil && l.c != nil && !held(&l.rootsMu)
+//@   init gEncodes == 0
+//@   invariant "range roots" [C09] listed-so-far-are-the-pool-roots: rangeindex < len(roots) && len(res.Certificates) == rangeindex + 1 && (forall k int :: (0 <= k && k <= rangeindex) ==> res.Certificates[k] == roots[k].Raw)
+//@   call json.(*Encoder).Encode requires [C09] lists-exactly-the-current-pool: roots == rawCertsOf(l.roots) && len(res.Certificates) == len(roots) && (forall k int :: (0 <= k && k < len(roots)) ==> res.Certificates[k] == roots[k].Raw)
+//@   ensures [C09] body-is-one-fresh-encoding: gEncodes == 1
+//@ census [C09] no-raw-body-writes-outside-the-submission-handlers: callers http.ResponseWriter.Write within ctlog.(*Log).addChain, ctlog.(*Log).addPreChain in ctlog
 
 //@ guarded [C09] ctlog.Log.rootsMu: roots, rootsPEM
 //@ func ctlog.(*Log).SetRootsFromPEM props C09
